@@ -20,7 +20,7 @@ import pandas as pd
 from hypothesis import strategies as st
 from sklearn.base import clone
 
-from vf.learners import ExactTable, ExactTableRegressor, ScoreColumn, ShiftScorer
+from vf.learners import ExactTable, ExactTableRegressor, PredictOnlyColumn, ScoreColumn, ScoreColumnMulti, ShiftScorer
 from vf.runner import PropertyViolation, Skip, Sub
 
 PROPERTY = "C19"
@@ -32,7 +32,8 @@ RULE = (
     "classifier/regressor (warm_start=False, PyTorch), with drawn configurations and two drawn datasets "
     "(for CorrelationRemover also of different width and different DataFrame column layout); all 5^1..5^4 "
     "histories are enumerated for ThresholdOptimizer and CorrelationRemover over fixed dataset pairs. "
-    "Non-trivial: the history contains a refit on different data, or a clone/pickle after a fit."
+    "Non-trivial: the history contains a refit on different data, a refit after a re-configuration, or a clone/pickle "
+    "after a fit."
 )
 ASSUMPTIONS = [
     "the reference model is a freshly constructed estimator with equal parameters fitted once on the last dataset",
@@ -45,14 +46,17 @@ ASSUMPTIONS = [
 
 # configuration key -> constructor parameter that set_params may change between fits, and alternative values
 RECONF_PARAM = {
-    "to": {"grid_size": "grid_size", "flip": "flip"},
+    "to": {"grid_size": "grid_size", "flip": "flip", "constraint": "constraints", "objective": "objective"},
     "eg": {"eps": "eps", "max_iter": "max_iter", "eta0": "eta0", "lp": "run_linprog_step"},
     "gs": {"grid_size": "grid_size", "grid_limit": "grid_limit", "cw": "constraint_weight"},
     "cr": {"alpha": "alpha"},
     "adv": {"lr": "learning_rate", "alpha": "alpha", "epochs": "epochs", "batch_size": "batch_size"},
 }
 RECONF_VALUES = {
-    "to": {"grid_size": [2, 3, 10, 40, 1000], "flip": [True, False]},
+    "to": {"grid_size": [2, 3, 10, 40, 1000], "flip": [True, False], "scorer": ["column", "shift", "predonly", "multi"],
+           "pm": ["predict", "auto", "auto", "predict_proba", "decision_function"],
+           "constraint": ["demographic_parity", "equalized_odds", "true_positive_rate_parity", "false_negative_rate_parity"],
+           "objective": ["accuracy_score", "balanced_accuracy_score"]},
     "eg": {"eps": [0.01, 0.05, 0.2], "max_iter": [2, 5, 10], "eta0": [0.5, 2.0], "lp": [True, False]},
     "gs": {"grid_size": [3, 4, 6, 11], "grid_limit": [0.5, 1.0, 2.0], "cw": [0.0, 0.5, 1.0]},
     "cr": {"alpha": [1.0, 0.5, 0.0]},
@@ -128,14 +132,44 @@ def _interp_repr(d):
     return out
 
 
+def _to_scorer(c):
+    kind = c.get("scorer", "column")
+    if kind == "shift" and not c["prefit"]:
+        return ShiftScorer()  # predict only, data-dependent
+    if kind == "predonly":
+        return PredictOnlyColumn()
+    if kind == "multi":
+        return ScoreColumnMulti(primary="predict")  # predict_proba / decision_function on the reversed scale
+    return ScoreColumn()
+
+
+def _to_pm(c):
+    pm = c.get("pm", "predict")
+    if pm in ("predict_proba", "decision_function") and c.get("scorer", "column") not in ("column", "multi"):
+        return "auto"
+    return pm
+
+
 class _TO(_Adapter):
     def build(self):
         from fairlearn.postprocessing import ThresholdOptimizer
 
         c = self.cfg
-        est = ShiftScorer() if (c.get("scorer") == "shift" and not c["prefit"]) else ScoreColumn()
-        return ThresholdOptimizer(estimator=est, constraints=c["constraint"], objective=c["objective"],
-                                  grid_size=c["grid_size"], flip=c["flip"], prefit=c["prefit"], predict_method="predict")
+        return ThresholdOptimizer(estimator=_to_scorer(c), constraints=c["constraint"], objective=c["objective"],
+                                  grid_size=c["grid_size"], flip=c["flip"], prefit=c["prefit"], predict_method=_to_pm(c))
+
+    def updates(self, c2):
+        upd, keys = super().updates(c2)
+        merged = dict(self.cfg)
+        merged.update(c2)
+        if "scorer" in c2:  # a new base estimator object (possibly of another class, with other prediction methods)
+            upd["estimator"] = _to_scorer(merged)
+            keys.append("scorer")
+        if "pm" in c2 or "scorer" in c2:
+            upd["predict_method"] = _to_pm(merged)
+            if "pm" in c2:
+                keys.append("pm")
+        return upd, keys
 
 
     def _xy(self, k):
@@ -334,6 +368,8 @@ def check(case):
                 refit_diff = True
             if fitted_on is not None:
                 tags.add("refit")
+            if seen_fit and "reconfig" in tags:
+                tags.add("refit_after_reconfig")
             fitted_on = k
             seen_fit.add(k)
             ref = ad.fit(ad.build(), k)
@@ -412,7 +448,7 @@ def check(case):
         tags.add("adv_refit_other_label_set")
     if case.get("shared_X") and refit_diff:
         tags.add("refit_same_X_object_other_labels")
-    if refit_diff or post_fit_copy:
+    if refit_diff or post_fit_copy or "refit_after_reconfig" in tags:
         tags.add("nt")
     if refit_diff:
         tags.add("refit_other_data")
@@ -586,7 +622,24 @@ def _hist_strategy(draw):
     vals = RECONF_VALUES[h["estimator"]]
     h["config2"] = {k: draw(st.sampled_from(v)) for k, v in vals.items()}
     if h["estimator"] == "to":
-        h["config"]["scorer"] = draw(st.sampled_from(["column", "shift"]))
+        h["config"]["scorer"] = draw(st.sampled_from(["column", "shift", "predonly", "multi"]))
+        h["config"]["pm"] = draw(st.sampled_from(["predict", "auto", "auto", "predict_proba", "decision_function"]))
+        # a re-configuration changes a drawn subset of the parameters (the others keep their value)
+        keep = draw(st.lists(st.sampled_from(sorted(h["config2"])), min_size=1, max_size=4, unique=True))
+        h["config2"] = {k: h["config2"][k] for k in keep}
+    return h
+
+
+@st.composite
+def _reconf_strategy(draw):
+    """Histories built around a set_params re-configuration between two fits (ThresholdOptimizer twice as often:
+    its base estimator, predict_method, constraints and objective are all replaceable)."""
+    h = draw(_hist_strategy())
+    if h["estimator"] != "to" and draw(st.booleans()):
+        h = draw(_hist_strategy())
+    h["ops"] = draw(st.sampled_from([["fit1", "reconfig", "fit1"], ["fit1", "reconfig", "fit2", "predict"],
+                                     ["fit1", "pickle", "reconfig", "fit1"], ["fit2", "reconfig", "fit1", "pickle"],
+                                     ["fit1", "predict", "reconfig", "fit1", "predict"], ["fit2", "reconfig", "clone", "fit2"]]))
     return h
 
 
@@ -618,7 +671,7 @@ def _enumerate(tier):
     max_len = 3 if tier == "quick" else 4
     seqs = [list(s) for L in range(1, max_len + 1) for s in itertools.product(OPS + ["reconfig"], repeat=L)]
     to_cfgs = [({"constraint": "equalized_odds", "objective": "accuracy_score", "grid_size": 10, "flip": True, "prefit": False,
-                 "scorer": "shift"}, {"grid_size": 3, "flip": False}),
+                 "scorer": "shift", "pm": "auto"}, {"grid_size": 3, "flip": False, "scorer": "multi"}),
                ({"constraint": "demographic_parity", "objective": "balanced_accuracy_score", "grid_size": 2, "flip": False,
                  "prefit": True, "scorer": "column"}, {"grid_size": 40, "flip": True})]
     cr_cfgs = [({"ids": ["s"], "alpha": 1.0, "frame": True}, {"alpha": 0.5}), ({"ids": [0], "alpha": 0.5, "frame": False}, {"alpha": 1.0})]
@@ -655,6 +708,8 @@ SUBS = [
     Sub("histories_sampled", check, strategy=_hist_strategy, quick=220, thorough=6000, shards=16, shrink_quick=False,
         floors={"nt": 0.142, "refit_other_data": 0.06, "copy_after_fit": 0.079, "est:to": 0.05, "est:eg": 0.1, "est:gs": 0.088,
                 "est:cr": 0.05, "est:adv": 0.05}),
+    Sub("reconfigured_refits", check, strategy=_reconf_strategy, quick=160, thorough=4000, shards=16, shrink_quick=False,
+        floors={"reconfig": 0.5, "est:to": 0.1, "refit_after_reconfig": 0.4}),
     Sub("histories_exhaustive", check, enumerate=_enumerate, shards=16, exhaustive=True),
     Sub("adversarial_refits", check, strategy=_adv_refit_hist, quick=48, thorough=800, shards=16, shrink_quick=False,
         floors={"adv_refit_other_category_set": 0.45}),
